@@ -324,6 +324,9 @@ ObsFails(C, E, n, m, ls, ln) ==
       A      == Active(E, n, k)
       covered == Covered(E, A)
       windowed == from # MinDay \/ to # MaxDay
+      \* a run on a truncated input: the history of this asset cut at T (k < m), or - end to end, several assets in one run - the whole input
+      \* cut at T, which may leave this asset's own history complete (field trunc of the observation)
+      cutrun == k < m \/ ("trunc" \in DOMAIN ln /\ ln.trunc)
   IN IF k < 1 \/ k > n THEN {"S.bad_prefix_length"}
      ELSE IF SameInstantChain(E, A) THEN {"S.same_instant_transfer_chain_not_judged"}
      ELSE IF ln.status # "ok" THEN
@@ -347,7 +350,7 @@ ObsFails(C, E, n, m, ls, ln) ==
               FSall  == {q \in 1..Len(fr) : fr[q].ev \in A /\ Day(E[fr[q].ev]) <= to}
               FSwin  == {q \in FSall : Day(E[fr[q].ev]) >= from}
               expFr  == {FracTuple(fr[q]) : q \in FSwin}
-              frN    == (IF k < m THEN {"C09.truncated_history_same_fractions"} ELSE {})
+              frN    == (IF cutrun THEN {"C09.truncated_history_same_fractions"} ELSE {})
                         \cup (IF to # MaxDay /\ from = MinDay THEN {"C09.to_date_run_same_fractions"} ELSE {})
                         \cup (IF windowed THEN {"C10.window_shows_exactly_the_dated_fractions"} ELSE {})
                         \cup (IF from # MinDay THEN {"C02.date_filter_does_not_change_lot_consumption"} ELSE {})
@@ -363,13 +366,13 @@ ObsFails(C, E, n, m, ls, ln) ==
                         /\ SetEq(ln.intras, win({i \in A : E[i].cls = "intra"}))
               f2     == IF txOK THEN {}
                         ELSE (IF windowed THEN {"C10.window_shows_exactly_the_dated_transactions"} ELSE {"C11.every_transaction_listed_once"})
-                             \cup (IF k < m \/ (to # MaxDay /\ from = MinDay) THEN {"C09.to_date_run_same_transactions"} ELSE {})
+                             \cup (IF cutrun \/ (to # MaxDay /\ from = MinDay) THEN {"C09.to_date_run_same_transactions"} ELSE {})
               f3     == IF SetEq(ln.tev, win(Events(E, A))) THEN {}
                         ELSE IF windowed THEN {"C10.window_shows_exactly_the_dated_taxable_events"}
                         ELSE {"C03.taxable_event_set_is_exact"}
               expYr  == Summary(E, {fr[q] : q \in FSall}, FromYear(from))
               yrN    == {"C06.yearly_summary_equals_sum_of_fractions"}
-                        \cup (IF k < m \/ (to # MaxDay /\ from = MinDay) THEN {"C09.closed_year_totals_unchanged"} ELSE {})
+                        \cup (IF cutrun \/ (to # MaxDay /\ from = MinDay) THEN {"C09.closed_year_totals_unchanged"} ELSE {})
                         \cup (IF from # MinDay THEN {"C10.yearly_lines_cover_whole_years_from_window_start"} ELSE {})
               \* (lines merged over long / short: if the merged lines agree, the mismatch is in how fractions were split by term)
               NoTerm(S) == {<<yt[1], yt[2], Sum({r \in S : r[1] = yt[1] /\ r[2] = yt[2]}, LAMBDA r : r[4]), Sum({r \in S : r[1] = yt[1] /\ r[2] = yt[2]}, LAMBDA r : r[5])>> :
@@ -379,7 +382,7 @@ ObsFails(C, E, n, m, ls, ln) ==
               expBal == {<<a, L.bal[a].acq, L.bal[a].sent, L.bal[a].recv, L.bal[a].fin>> : a \in DOMAIN L.bal}
               balN   == {"C07.balances_equal_account_flows"}
                         \cup (IF to # MaxDay THEN {"C10.balances_reflect_history_up_to_to_date"} ELSE {})
-                        \cup (IF k < m \/ (to # MaxDay /\ from = MinDay) THEN {"C09.to_date_run_same_balances"} ELSE {})
+                        \cup (IF cutrun \/ (to # MaxDay /\ from = MinDay) THEN {"C09.to_date_run_same_balances"} ELSE {})
               f5     == IF SetEq(ln.bal, expBal) THEN {} ELSE balN
               lotsTo == {i \in Lots(E, A) : Day(E[i]) <= to}
               unsold == Sum(lotsTo, LAMBDA i : E[i].amt)
@@ -392,13 +395,13 @@ ObsFails(C, E, n, m, ls, ln) ==
                         THEN {} ELSE {"C10.average_price_reflects_history_up_to_to_date"}
               expLab == {Labels(fr, FSall, q) : q \in FSwin}
               labN   == (IF windowed THEN {"C10.fraction_counts_reflect_history_up_to_to_date"} ELSE {"C13.fraction_counts_k_of_n"})
-                        \cup (IF k < m \/ (to # MaxDay /\ from = MinDay) THEN {"C09.to_date_run_same_fraction_counts"} ELSE {})
+                        \cup (IF cutrun \/ (to # MaxDay /\ from = MinDay) THEN {"C09.to_date_run_same_fraction_counts"} ELSE {})
                         \cup (IF from # MinDay THEN {"C02.date_filter_does_not_change_lot_consumption"} ELSE {})    \* (a lot's k/n counts every fraction taken from it)
               f8     == IF SetEq(ln.lab, expLab) THEN {} ELSE labN
               \* sold part of every lot shown: what the fractions shown took from it
               expSold == {<<i, Sum({q \in FSwin : fr[q].lot = i}, LAMBDA q : fr[q].amt)>> : i \in win({j \in A : E[j].cls = "in"})}
               soldN  == (IF windowed THEN {"C10.sold_part_counts_the_fractions_shown"} ELSE {"C15.sold_part_is_consumed_part_of_lot"})
-                        \cup (IF k < m \/ (to # MaxDay /\ from = MinDay) THEN {"C09.to_date_run_same_sold_part"} ELSE {})
+                        \cup (IF cutrun \/ (to # MaxDay /\ from = MinDay) THEN {"C09.to_date_run_same_sold_part"} ELSE {})
               f9     == IF SetEq(ln.sold, expSold) THEN {} ELSE soldN
               w      == {c[1] : c \in {cc \in {
                           <<"W.C06.summary_with_several_lines", Cardinality(expYr) >= 2>>,
@@ -408,7 +411,7 @@ ObsFails(C, E, n, m, ls, ln) ==
                           <<"W.C07.several_accounts", Cardinality(DOMAIN L.bal) >= 2>>,
                           <<"W.C07.transfer_posted", \E i \in A : E[i].cls = "intra" /\ Day(E[i]) <= to>>,
                           <<"W.C08.negative_balance_allowed", ln.neg /\ Ledger(E, A, to, 0).neg # {}>>,
-                          <<"W.C09.later_transactions_exist", (k < m \/ to # MaxDay) /\ Cardinality(FSall) < Len(fr) /\ FSall # {}>>,
+                          <<"W.C09.later_transactions_exist", (cutrun \/ to # MaxDay) /\ Cardinality(FSall) < Len(fr) /\ FSall # {}>>,
                           <<"W.C10.window_hides_and_shows_fractions", windowed /\ FSwin # {} /\ Cardinality(FSwin) < Len(fr)>>,
                           <<"W.C10.from_date_hides_history_that_counts", from # MinDay /\ Cardinality(FSwin) < Cardinality(FSall)>> } : cc[2]}}
               \* C06 within one run: without a from-date the summary is the fold of the very detail fractions that run shows
